@@ -206,6 +206,19 @@ def generated(tier):
         for fn, ref in refs.items():
             add("%s %s %s" % (fn, _arr(A), _arr(B)), prog("min x_0 + sum(i in %s(A, B)) { x_i }" % fn, ["x_0 <= 8", "k_i: x_i >= i for i in %s(A, B)" % fn], where=w, define=d),
                 prog("min x_0 + " + _sum(["x_%d" % i for i in ref]), ["x_0 <= 8"] + ["k_%d: x_%d >= %d" % (i, i, i) for i in ref], define=d))
+    # operands of different numeric kinds: a range against an array literal, whole numbers against an array with a fractional entry;
+    # set functions compare elements by value
+    for Aexpr, A, B in (("range(0, 5, false)", [0, 1, 2, 3, 4], [2.5, 2, 3]), ("range(0, 5, false)", [0, 1, 2, 3, 4], [2, 3]), ("range(1, 4, true)", [1, 2, 3, 4], [4, 1, 9]), ("[1, 2, 3, 4]", [1, 2, 3, 4], [2.0, 3.5, 4])):
+        w = ["let B = " + _arr(B)]
+        d = decl(["x_%d" % i for i in range(10)])
+        for fn, ref in (("intersection", [a for a in A if a in B]), ("difference", [a for a in A if a not in B])):
+            add("%s %s %s" % (fn, Aexpr, _arr(B)), prog("min x_0 + sum(i in %s(%s, B)) { x_i }" % (fn, Aexpr), ["x_0 <= 8", "k_i: x_i >= i for i in %s(%s, B)" % (fn, Aexpr)], where=w, define=d),
+                prog("min x_0 + " + _sum(["x_%d" % i for i in ref]), ["x_0 <= 8"] + ["k_%d: x_%d >= %d" % (i, i, i) for i in ref], define=d))
+        Bi = [b for b in B if b == int(b)]
+        if len(Bi) == len(B):
+            ref = [b for b in B if b not in A]
+            add("difference %s %s" % (_arr(B), Aexpr), prog("min x_0 + sum(i in difference(B, %s)) { x_i }" % Aexpr, ["x_0 <= 8", "k_i: x_i >= i for i in difference(B, %s)" % Aexpr], where=w, define=d),
+                prog("min x_0 + " + _sum(["x_%d" % i for i in ref]), ["x_0 <= 8"] + ["k_%d: x_%d >= %d" % (i, i, i) for i in ref], define=d))
     # nested arrays, tuple destructuring
     mats = [[[1, 2], [3, 4]], [[1, 2, 3]], [[5], [6], [7]], [[1, 2], [3, 4], [5, 6]]]
     for M in mats:
